@@ -63,6 +63,27 @@ func mkProfiles() {
 		{"zlib+tdns", []cfg.Setting{cfg.WrapZlib, cfg.TransformDNS("a.bc")}},
 		{"aes+hex+tb64s", []cfg.Setting{cfg.WrapAES(key, iv), cfg.WrapHex, cfg.TransformB64Shift(200)}},
 	}
+	// every ordered pair of wrappers (stacks of depth 2); depth 1 is above
+	single := []struct {
+		name string
+		set  cfg.Setting
+	}{{"hex", cfg.WrapHex}, {"b64w", cfg.WrapBase64}, {"zlib", cfg.WrapZlib}, {"gzip", cfg.WrapGzip}, {"xor", cfg.WrapXOR(key[:7])},
+		{"aes", cfg.WrapAES(key, iv)}, {"cbk", cfg.WrapCBK(11, 22, 33, 44)}, {"cbk32", cfg.WrapCBKSize(32, 9, 8, 7, 6)}}
+	for _, a := range single {
+		for _, b := range single {
+			if a.name == b.name {
+				continue
+			}
+			defs = append(defs, struct {
+				name string
+				set  []cfg.Setting
+			}{"st:" + a.name + "," + b.name, []cfg.Setting{a.set, b.set}})
+		}
+	}
+	defs = append(defs, struct {
+		name string
+		set  []cfg.Setting
+	}{"cbk32", []cfg.Setting{cfg.WrapCBKSize(32, 9, 8, 7, 6)}})
 	for _, d := range defs {
 		p, err := cfg.Pack(append([]cfg.Setting{host, cfg.ConnectTCP}, d.set...)...).Build()
 		if err != nil {
@@ -557,6 +578,9 @@ func generateMore(corpus bool) {
 		nRandom = 400
 	}
 	for _, p := range profiles {
+		if strings.HasPrefix(p.name, "st:") || p.name == "cbk32" {
+			continue
+		}
 		for _, name := range packetOrder {
 			n := pk[name]()
 			plain := plainBytes(n)
@@ -574,6 +598,21 @@ func generateMore(corpus bool) {
 			step := len(wire)/6 + 1
 			if full {
 				step = len(wire)/24 + 1
+			}
+			if !thorough && strings.Contains(p.name, "cbk") {
+				// the CBK cipher costs 1.5 ms per connection (it rebuilds its tables per block): every byte
+				// only where an outer reader sits directly on it (AES, XOR) and for CBK alone
+				crypto := !strings.HasPrefix(p.name, "st:") || strings.Contains(p.name, "aes") || strings.Contains(p.name, "xor")
+				switch {
+				case crypto && name == "hello":
+					step = 1
+				case crypto:
+					step = 4
+				case name == "hello":
+					step = 6
+				default:
+					continue
+				}
 			}
 			for i := 0; i < len(wire); i += step {
 				runHandle(kind, p, wire[:i], "wire-truncated")
@@ -612,6 +651,94 @@ func generateMore(corpus bool) {
 			runHandle("hr", p, rewrap(p, x), "random")
 		}
 	}
+	// ---- flag combinations on packets of an UNREGISTERED and of a registered device: every single flag
+	// bit and every pair of the nine named flags x every Sv/Mv id x empty / non-empty body
+	{
+		var fls []com.Flag
+		fls = append(fls, 0)
+		for b := 0; b < 16; b++ {
+			fls = append(fls, com.Flag(1)<<b)
+		}
+		for a := 0; a < 9; a++ {
+			for b := a + 1; b < 9; b++ {
+				fls = append(fls, com.Flag(1)<<a|com.Flag(1)<<b)
+			}
+		}
+		ids := []uint8{0xC0, 0xFF}
+		for i := 0; i <= 0x22; i++ {
+			ids = append(ids, uint8(i))
+		}
+		for _, id := range ids {
+			for _, fl := range fls {
+				for _, body := range [][]byte{nil, pat(6, 2)} {
+					if !thorough && len(body) > 0 && id > 8 && id != 0xC0 {
+						continue
+					}
+					n := &com.Packet{ID: id, Job: 3, Flags: fl, Device: devA()}
+					if fl&(com.FlagFrag|com.FlagMulti) != 0 {
+						n.Flags |= com.Flag(2)<<48 | com.Flag(5)<<16 // len 2, group 5, position 0
+					}
+					if len(body) > 0 {
+						n.Write(body)
+					}
+					w := plainBytes(n)
+					runHandle("hs", none, w, "flags")
+					runHandle("hr", none, w, "flags")
+				}
+			}
+		}
+	}
+	// ---- wrapper stacks of depth 1 and 2: single-byte damage of EVERY byte of a valid wrapped stream
+	for _, p := range profiles {
+		if !(strings.HasPrefix(p.name, "st:") || p.w != nil && p.t == nil && !strings.Contains(p.name, "+")) {
+			continue
+		}
+		for _, name := range []string{"hello", "data"} {
+			kind := "hr"
+			if name == "hello" {
+				kind = "hs"
+			}
+			wire := encode(p, pk[name]())
+			runHandle(kind, p, wire, "stack-valid")
+			// quick tier: every byte for the stacks without a compressor (their streams are
+			// short and cheap), every third byte behind zlib/gzip and for the second packet kind
+			step := 1
+			if !thorough && (strings.Contains(p.name, "zlib") || strings.Contains(p.name, "gzip")) {
+				step = 3
+			}
+			if !thorough && name == "data" && strings.HasPrefix(p.name, "st:") && step == 1 {
+				step = 2
+			}
+			if !thorough && strings.Contains(p.name, "cbk") {
+				// the CBK cipher costs 1.5 ms per connection (it rebuilds its tables per block): every byte
+				// only where an outer reader sits directly on it (AES, XOR) and for CBK alone
+				crypto := !strings.HasPrefix(p.name, "st:") || strings.Contains(p.name, "aes") || strings.Contains(p.name, "xor")
+				switch {
+				case crypto && name == "hello":
+					step = 1
+				case crypto:
+					step = 4
+				case name == "hello":
+					step = 6
+				default:
+					continue
+				}
+			}
+			for i := 0; i < len(wire); i += step {
+				for _, d := range []byte{0x80, 0x01, 0xff} {
+					if d != 0x80 && !thorough {
+						continue
+					}
+					x := append([]byte{}, wire...)
+					x[i] ^= d
+					runHandle(kind, p, x, "stack-damaged")
+				}
+			}
+			for i := len(wire) - 1; i > 0 && (i > len(wire)-12 || (thorough && i > len(wire)-40)); i-- {
+				runHandle(kind, p, wire[:i], "stack-truncated")
+			}
+		}
+	}
 	// ---- tags (conn.resolve) on a hello and on post-registration Packets through the real handle():
 	// unknown, own, another registered Session's, duplicates, many; a zero tag is refused by the reader
 	{
@@ -625,7 +752,7 @@ func generateMore(corpus bool) {
 		many[150], many[299] = other, own
 		tagSets = append(tagSets, many)
 		for pi, p := range profiles {
-			if !(thorough || pi == 0 || pi == 1 || p.name == "tdns" || p.name == "aes+hex+tb64s") {
+			if strings.HasPrefix(p.name, "st:") || p.name == "cbk32" || !(thorough || pi == 0 || pi == 1 || p.name == "tdns" || p.name == "aes+hex+tb64s") {
 				continue
 			}
 			for _, ts := range tagSets {
@@ -873,7 +1000,7 @@ func generateMore(corpus bool) {
 			run("hq:none", payload(&conns), class)
 			runHandle("hr", none, plainBytes(top), class)
 			if i%7 == 0 {
-				p := profiles[1+(i/7)%(len(profiles)-1)]
+				p := profiles[1+(i/7)%12]
 				var pc data.Chunk
 				for _, f := range q {
 					w := encode(p, mk(f))
